@@ -14,7 +14,10 @@ import Nsq.Model.ViewOrder
   gate k=v …                  → C17: status, upstream requests, notifications, config write
   view …                      → C18: see `Nsq.Model.AggregateWire`
   fan kind=k topic=h channel=h node=sym lk=… na=… nd=…  → C17: `AdminProg.runAction`: result, number of errors in the ErrList, requests phase by phase
+  strfn canon|esc <hex>       → C17: `AdminGate.canon` (CanonicalMIMEHeaderKey) / `AdminFanout.esc` (url.QueryEscape), hex
+  proxy on=b m=M q=<hex> who=… g=…  → C17: the graphite reverse proxy `GET /render`
   getv1 https=b mode=n        → C18: `Fetch.getV1` against a stub behaviour: outcome, requests seen on the plain / TLS port
+  add topic|channel …         → C18: `TopicAgg.addAll` / `ChanAgg.add` on reports given directly (`AggregateWire.addLine`)
 -/
 open Nsq Nsq.Line Nsq.Model.AdminGate
 
@@ -70,6 +73,7 @@ def parseWorld (toks : List String) : World :=
     match t.split (· == ':') |>.toList |>.map (·.toString) with
     | [a, up, ht] => some { addr := a, up := up == "1", hasTopic := ht == "1" : Nsqd }
     | [a, up, ht, pu] => some { addr := a, up := up == "1", hasTopic := ht == "1", postUp := pu == "1" : Nsqd }
+    | [a, up, ht, pu, rep] => some { addr := a, up := up == "1", hasTopic := ht == "1", postUp := pu == "1", reports := rep : Nsqd }
     | _ => none)
   { lookupds := lks, nsqdAddrs := splitList (field toks "na") ',', nsqds := nds }
 
@@ -90,7 +94,10 @@ def gate (toks : List String) : String :=
   let cands := Nsq.Gen.AdminRoutes.adminRoutes.filterMap (fun r =>
     (matchSegs r.segs path).map (fun ps => (r, ps)))
   match cands.find? (fun c => c.1.method == method) with
-  | none => if cands.isEmpty then "404 - - 0" else "405 - - 0"
+  | none =>
+    -- httprouter: no route for the path → 404; a route under another method → 405, except that an OPTIONS request
+    -- is answered by the router itself (`HandleOPTIONS`, 200 with an `Allow` header) — no handler runs in any case
+    if cands.isEmpty then "404 - - 0" else if method == "OPTIONS" then "200 - - 0" else "405 - - 0"
   | some (r, params) =>
     match lookupHandler Nsq.Gen.AdminRoutes.adminHandlers r.handler with
     | none => "0 - - 0"
@@ -135,8 +142,12 @@ def gate (toks : List String) : String :=
           otherCond := fun t => others.contains t }
       let (status, obs) := run env sk
       let ups := obs.filterMap (fun o => match o with | .upstream n => some n | _ => none)
+      -- the index page hands the value of the admin check to its template (`var IS_ADMIN = …`)
+      let showsFlag := r.handler == "indexHandler" && status == 200 && ups.isEmpty && method == "GET" &&
+        (paths sk).all (fun p => p.2.1.contains (.pureCall "isAuthorizedAdminRequest"))
       let reqs :=
-        if ups.all (fun n => (actionFor n).isSome) then
+        if showsFlag then (if isAdmin conf req then "isadmin=true" else "isadmin=false")
+        else if ups.all (fun n => (actionFor n).isSome) then
           joinOr (sortStrings (ups.flatMap (fun n => match actionFor n with
             | some a => ((requests w a).filter (observable w)).map renderReq
             | none => []))) "|"
@@ -171,6 +182,41 @@ def fan (toks : List String) : String :=
     let phases := (groupPhases seen []).map (fun kg => String.intercalate "|" (sortStrings kg.2))
     let rs := match res.1 with | .none => "none" | .partialErr => "partial" | .full => "full"
     s!"{rs} errs={res.2} {joinOr phases ";"}"
+
+/-- `strfn canon <hex>` | `strfn esc <hex>`: the two string functions of the standard library the C17 model
+contains (`textproto.CanonicalMIMEHeaderKey`, `url.QueryEscape`); answer in hex. -/
+def hexOfString (s : String) : String :=
+  if s == "" then "-" else
+  String.join (s.toUTF8.toList.map (fun b =>
+    String.ofList [Nsq.Model.AdminFanout.hexDigit (b.toNat / 16), Nsq.Model.AdminFanout.hexDigit (b.toNat % 16)])) |>.toLower
+
+def strfn (toks : List String) : String :=
+  match toks with
+  | [f, h] =>
+    match unhexStr (if h == "-" then "" else h) with
+    | none => "bad-op"
+    | some s =>
+      if f == "canon" then hexOfString (Nsq.Model.AdminGate.canon s)
+      else if f == "esc" then hexOfString (Nsq.Model.AdminFanout.esc s)
+      else "bad-op"
+  | _ => "bad-op"
+
+/-- `proxy on=b m=M q=<hex> who=… g=<200|404|500|down>`: the graphite reverse proxy `GET /render`. Registered only with
+`--proxy-graphite` (the regenerated table lists it: `Route.isProxy`), under GET only; it forwards the request it
+received — same method, path and query — to the graphite URL with that URL's basic-auth user, hands back
+graphite's status (502 when graphite cannot be reached), looks at no identity and asks no nsqd / nsqlookupd. -/
+def proxy (toks : List String) : String :=
+  let registered := Nsq.Gen.AdminRoutes.adminRoutes.any (fun r => r.isProxy && r.method == "GET" && r.segs == ["render"])
+  let others := Nsq.Gen.AdminRoutes.adminRoutes.any (fun r => r.segs == ["render"] && !r.isProxy)
+  if !registered || others then "bad-table"
+  else
+    let m := field toks "m"
+    let q := (unhexStr (field toks "q")).getD ""
+    let g := field toks "g"
+    if field toks "on" != "1" then "404 - auth=- nsq=0"
+    else if m != "GET" then "405 - auth=- nsq=0"
+    else if g == "down" then "502 - auth=- nsq=0"
+    else s!"{g} GET:/render{if q == "" then "" else "?" ++ q} auth=guser nsq=0"
 
 def getv1 (toks : List String) : String :=
   match (field toks "mode").toNat? with
@@ -223,8 +269,11 @@ def stepLine (line : String) : String :=
   | "view" :: toks => Nsq.Model.AggregateWire.viewLine toks
   | "fan" :: toks => E7.fan toks
   | "getv1" :: toks => E7.getv1 toks
+  | "strfn" :: toks => E7.strfn toks
+  | "proxy" :: toks => E7.proxy toks
   | "lat" :: toks => E7.lat toks
   | "less" :: toks => E7.less toks
+  | "add" :: toks => Nsq.Model.AggregateWire.addLine toks
   | "latval" :: _ => "marshal-ok"   -- no model of the float values: the line states what the property demands
   | _ => "bad-op"
 
